@@ -1,23 +1,22 @@
-SPECIFICATION Spec
+\* liveness witness: a blocked Peers(ctx) caller is not served although the set has members (lost wake-up)
+SPECIFICATION LiveSpec
 CONSTANTS
   Peers = {"p1", "p2"}
   Self = "self"
   Limit = 1
   Workers = {"w1"}
-  Callers = {"c1", "c2"}
+  Callers = {"c1"}
   Delay = 1
-  MaxRounds = 2
-  MaxDrops = 1
+  MaxRounds = 0
+  MaxDrops = 0
   MaxInbound = 0
   MaxFail = 0
-  MaxCalls = 2
+  MaxCalls = 1
   MaxApi = 0
-  WithGC = TRUE
+  WithGC = FALSE
   AtomicPeers = FALSE
   SignedWant = FALSE
   Serialized = FALSE
   DirectAPI = FALSE
-VIEW state
 CHECK_DEADLOCK FALSE
-INVARIANTS NoStrandedWaiter
-
+PROPERTIES WaiterServed
